@@ -7,14 +7,13 @@ import Nstd.Avl.LemmasInvariance
   (`multi = true`) after the operation history `ops` (any list of plain / hinted inserts, removals
   by key / iterator, removeFront/removeBack, clear, lookups; an operation the container rejects
   leaves the state unchanged).  `Reach multi s` additionally closes the reachable states under
-  copy assignment and bulk insert between two Maps.  `abs s` is the in-order sequence of
+  copy construction / copy assignment (Map and MultiMap) and bulk insert between two Maps.  `abs s` is the in-order sequence of
   keys/values of the tree; `iter_run` shows it is what iteration `begin()…end()` yields.
   All theorems quantify over every history, i.e. over every reachable tree shape; keys are `Int`
   (PropsK.lean: any strictly totally ordered key type).
 
   The exact item ids / free-list order are modelled and compared with the real code by the
-  thorough correspondence run (white-box dump); the theorems only need them distinct.  Out of scope of C01: self-assignment, copies of MultiMap
-  (defects D2/D5, property C04), allocation failure.
+  thorough correspondence run (white-box dump); the theorems only need them distinct.  Out of scope of C01: self-assignment (C04), allocation failure.
 -/
 namespace Nstd.Avl
 open Tree
@@ -37,7 +36,8 @@ structure Inv (s : St) : Prop where
 inductive Reach : Bool → St → Prop
   | init (m : Bool) : Reach m (St.init m)
   | step {m : Bool} {s : St} (op : Op) : Reach m s → Reach m (step' s op)
-  | assign {d s : St} : Reach false d → Reach false s → Reach false (d.assignFrom s).1
+  | assign {m : Bool} {d s : St} : Reach m d → Reach m s → Reach m (d.assignFrom s).1
+  | copy {m : Bool} {s : St} : Reach m s → Reach m ((St.init m).assignFrom s).1
   | insertAll {d s : St} : Reach false d → Reach false s → Reach false (d.insertAll s).1
 
 theorem reach_run (multi : Bool) (ops : List Op) : Reach multi (run multi ops) := by
@@ -58,8 +58,23 @@ theorem invs_reach {multi : Bool} {s : St} (hr : Reach multi s) : InvT s ∧ Inv
     | none => exact ⟨hI, hO, hm⟩
     | some r => exact ⟨(step_invT _ hI op r h).1, step_invO _ hI hO op r h, by rw [(step_invT _ hI op r h).2, hm]⟩
   | assign _ _ ihd ihs =>
-    obtain ⟨a1, a2, _, a4⟩ := assign_spec _ _ ihd.1 ihd.2.1 ihd.2.2 ihs.1 ihs.2.1 ihs.2.2
-    exact ⟨a1, a2, a4⟩
+    rename_i m d s _ _
+    cases m with
+    | false =>
+      obtain ⟨a1, a2, _, a4⟩ := assign_spec _ _ ihd.1 ihd.2.1 ihd.2.2 ihs.1 ihs.2.1 ihs.2.2
+      exact ⟨a1, a2, a4⟩
+    | true =>
+      obtain ⟨a1, a2, _, a4⟩ := assign_specM _ _ ihd.1 ihd.2.1 ihd.2.2 ihs.1 ihs.2.1
+      exact ⟨a1, a2, a4⟩
+  | copy _ ihs =>
+    rename_i m s _
+    cases m with
+    | false =>
+      obtain ⟨a1, a2, _, a4⟩ := assign_spec _ _ (invT_init false) (invO_init false) rfl ihs.1 ihs.2.1 ihs.2.2
+      exact ⟨a1, a2, a4⟩
+    | true =>
+      obtain ⟨a1, a2, _, a4⟩ := assign_specM _ _ (invT_init true) (invO_init true) rfl ihs.1 ihs.2.1
+      exact ⟨a1, a2, a4⟩
   | insertAll _ _ ihd ihs =>
     obtain ⟨a1, a2, _, a4⟩ := insertAll_spec _ _ ihd.1 ihd.2.1 ihd.2.2 ihs.2.1
     exact ⟨a1, a2, a4⟩
@@ -215,12 +230,20 @@ theorem refines_run_rel {multi : Bool} {s : St} (hr : Reach multi s) (ops : List
     rw [e] at this
     exact Spec.RunsFrom.cons op _ hstep this
 
-/-- **Copy**: after `dst = src` between two Maps, `dst` holds exactly the entries of `src`. -/
-theorem copy_spec {d s : St} (hd : Reach false d) (hs : Reach false s) :
+/-- **Copy**: after `dst = src` between two Maps or between two MultiMaps, `dst` holds exactly the
+    entries of `src` — for a MultiMap equal keys in the same order. -/
+theorem copy_spec {m : Bool} {d s : St} (hd : Reach m d) (hs : Reach m s) :
     abs (d.assignFrom s).1 = abs s := by
   obtain ⟨a1, a2, a3⟩ := invs_reach hd
   obtain ⟨b1, b2, b3⟩ := invs_reach hs
-  exact (assign_spec d s a1 a2 a3 b1 b2 b3).2.2.1
+  cases m with
+  | false => exact (assign_spec d s a1 a2 a3 b1 b2 b3).2.2.1
+  | true => exact (assign_specM d s a1 a2 a3 b1 b2).2.2.1
+
+/-- **Copy construction** `Map b(a)` / `MultiMap b(a)`: the same loop from a fresh container. -/
+theorem copy_ctor_spec {m : Bool} {s : St} (hs : Reach m s) :
+    abs ((St.init m).assignFrom s).1 = abs s :=
+  copy_spec (Reach.init m) hs
 
 /-- **Bulk insert**: after `dst.insert(src)` between two Maps, `dst` holds what plain inserts of
     all entries of `src` (in iteration order) into `dst` give. -/
